@@ -2,6 +2,9 @@
 
 mod backends;
 mod engine;
+mod hooks;
+mod spec;
+mod specvec;
 mod keys;
 mod ops;
 mod payload;
@@ -19,6 +22,8 @@ mod parsers;
 mod samples;
 mod pk;
 mod c12;
+mod c13;
+mod c15;
 mod faults;
 
 use engine::{Property, RunCfg, Tier};
@@ -35,6 +40,11 @@ impl Ctx {
 
 fn build(id: &str, ctx: &Ctx) -> Option<Property> {
     Some(match id {
+        "specvec" => {
+            let mut p = Property::new("specvec", "other");
+            p.subs.push(specvec::sub(if ctx.thorough() { specvec::Cats::ALL } else { specvec::Cats { heavy: false, ..specvec::Cats::ALL } }));
+            p
+        }
         "C01" => c01::build(ctx),
         "C02" => c02::build(ctx),
         "C04" => c04::build(ctx),
@@ -44,6 +54,8 @@ fn build(id: &str, ctx: &Ctx) -> Option<Property> {
         "C09" => c09::build(ctx),
         "C10" => c10::build(ctx),
         "C12" => c12::build(ctx),
+        "C13" => c13::build(ctx),
+        "C15" => c15::build(ctx),
         _ => return None,
     })
 }
